@@ -261,6 +261,38 @@ FRONT_END_REJECTS = [
 ]
 
 
+def limit_programs():
+    """programs beyond the 16-bit / 8-bit limits of the bytecode format: the outcome must be a value or an error of a documented kind,
+    never a panic, an abort or a hang, and nothing may be left allocated (native, not solver-decided; DESIGN.md 4.3-6, 5 C05)"""
+    stmts = "1;" * 17000  # 68 000 bytes of straight-line code
+    return [
+        ("limit:jump-beyond-64k", stmts + "als ja { 1 }"),
+        ("limit:loop-beyond-64k", stmts + "stel i = 0; zolang i < 2 { i += 1 }; i"),
+        ("limit:function-beyond-64k", stmts + "functie f() { 2 }; f()"),
+        ("limit:straight-line-beyond-64k", "1;" * 20000 + "7"),
+        ("limit:int-constants-beyond-64k", ";".join(str(i) for i in range(70000))),
+        ("limit:float-constants-beyond-64k", ";".join("%d.5" % i for i in range(70000))),
+        ("limit:text-constants-beyond-64k", ";".join('"t%d"' % i for i in range(70000))),
+        ("limit:array-literal-beyond-64k", "[" + ",".join("0" for _ in range(70000)) + "]"),
+        ("limit:globals-beyond-64k", ";".join("stel v%d = 0" % i for i in range(66000))),
+        ("limit:locals-beyond-64k", "functie f() { " + ";".join("stel v%d = 0" % i for i in range(66000)) + "; 1 }; f()"),
+        ("limit:arguments-beyond-255", "functie f() { 1 }; f(" + ",".join("0" for _ in range(300)) + ")"),
+        ("limit:builtin-arguments-beyond-255", "print(" + ",".join("0" for _ in range(300)) + ")"),
+        ("limit:parameters-beyond-255", "functie f(" + ",".join("p%d" % i for i in range(300)) + ") { 1 }; 2"),
+        ("limit:deep-nesting", "stel a = 0; " + "als ja { " * 200 + "a = 1" + " }" * 200 + "; a"),
+        ("limit:deep-parentheses", "(" * 300 + "1" + ")" * 300),
+        ("limit:deep-array-nesting", "[" * 300 + "1" + "]" * 300),
+        # recursion beyond the 16-bit base pointer of a call frame, and recursion that never ends
+        ("limit:recursion-40000", "functie d(n) { als n == 0 { antwoord 0 }; 1 + d(n - 1) }; [d(1000), d(40000)]"),
+        ("limit:recursion-without-end", "functie o(n) { o(n + 1) }; o(0)"),
+        ("limit:mutual-recursion-without-end", "stel b = 0; functie a(n) { b(n + 1) }; b = functie(n) { stel t = [n]; a(n) }; a(0)"),
+        # nesting beyond what the native stack of the recursive parser / compiler / drop glue takes (known findings, DESIGN.md 6)
+        ("limit:native-stack:parentheses-100k", "(" * 100000 + "1" + ")" * 100000),
+        ("limit:native-stack:operator-chain-100k", "1" + "+1" * 100000),
+        ("limit:native-stack:blocks-20k", "als ja { " * 20000 + "1" + " }" * 20000),
+    ]
+
+
 def front_end_regressions(rep):
     """native, not solver-decided: every text of FRONT_END_REJECTS must come back as SyntaxError with no output (dev and release)"""
     from .nlsym import driver
@@ -281,6 +313,34 @@ def front_end_regressions(rep):
                               "# directed front-end regression (native, not solver-decided)\n### PROGRAM\n%s\n### EXPECT SyntaxError\n### NATIVE\n%s\n" % (src, bad))
             else:
                 res["rejected_with_syntax_error_and_no_output"] += 1
+        lim = limit_programs()
+        res["limit_programs"] = len(lim)
+        res["limit_programs_value_or_error_and_balanced_ledger"] = 0
+        nat.eval_one("1", release=True)  # build the release binary before the pool starts
+
+        def one_limit(item):
+            name, src = item
+            for prof in ("dev", "release"):
+                j = nat.eval_one(src, release=(prof == "release"), timeout=120)
+                r = j.get("result", {})
+                if not ("ok" in r or "error" in r):
+                    return "%s: %s" % (prof, str(r)[:160])
+                if "error" in r and r["error"].get("kind") not in ("SyntaxError", "ReferenceError", "TypeError", "IndexError", "ArgumentError"):
+                    return "%s: undocumented error kind %r" % (prof, r["error"].get("kind"))
+                if j.get("leak") not in (None, 0):
+                    return "%s: heap ledger %+d block(s)" % (prof, j["leak"])
+            return None
+
+        from concurrent.futures import ThreadPoolExecutor
+        with ThreadPoolExecutor(8) as ex:
+            outcomes = list(ex.map(one_limit, lim))
+        for (name, src), bad in zip(lim, outcomes):
+            if bad:
+                rep.violation("frontend:" + name, "%s: a program beyond a limit of the bytecode format must end in a value or a documented error, with nothing left allocated | %s" % (name, bad),
+                              "# program beyond a limit of the bytecode format (native, not solver-decided); generated by lib/nlv/props.py limit_programs(), first 200 characters:\n"
+                              "### PROGRAM\n%s\n### NATIVE\n%s\n" % (src[:200], bad))
+            else:
+                res["limit_programs_value_or_error_and_balanced_ledger"] += 1
     finally:
         nat.close()
     return res
